@@ -15,13 +15,15 @@
 (*    BsMeta(H:h) BsPart(P:h:i)* BsCommit(C:h-1) BsSeen(SC:h)              *)
 (*    BsDesc(blockStore descriptor = visibility point) BsFlush             *)
 (*  State.ApplyBlock (gemmill/state/execution.go):                         *)
-(*    Plugin (query-cache batch) StInter (stateIntermediateKey)            *)
+(*    Plugin (query-cache batch) StInterProp StInter (proposer record,     *)
+(*    stateIntermediateKey)                                                *)
 (*  EVMApp.OnCommit (chain/app/evm/evm.go):                                *)
 (*    Trie* (trie node batches) Rcpt (receipts + kv records)               *)
 (*    KvHist (kv update history, only blocks with kv transactions)         *)
 (*    LastRcpt (lastreceipts record) AppLast (lastblock = commit point)    *)
 (*    [Legacy = TRUE, the code before the repair: AppLast Rcpt KvHist]     *)
-(*  finalizeCommit: StSave (stateKey) ; updateToState -> newStep:          *)
+(*  finalizeCommit: StSaveProp StSave (proposer record, stateKey) ;        *)
+(*  updateToState -> newStep:                                              *)
 (*    W_Mark ("#HEIGHT: h+1") W_NewHeight                                  *)
 (*                                                                         *)
 (* Crash is enabled between any two of them and inside recovery.  Recovery *)
@@ -64,6 +66,7 @@ VARIABLES
   kvh,       \* [height -> how many times its updates sit in the kv update history]
   lastRcpt,  \* lastreceipts record [h, rh]
   appLast,   \* lastblock record [h, root]
+  prop,      \* [key, inter]: height tags of the proposer records stored next to stateKey / stateIntermediateKey
   \* ---------------- volatile (lost by Crash)
   mode,      \* "rec" | "run" | "panic" | "dead" | "done"
   pc,        \* next durable write / recovery step
@@ -77,7 +80,7 @@ VARIABLES
   \* ---------------- history
   crashes, readable, ver
 
-durable  == <<wal, signer, bs, desc, plug, inter, stkey, trie, rcpt, kvh, lastRcpt, appLast>>
+durable  == <<wal, signer, bs, desc, plug, inter, stkey, trie, rcpt, kvh, lastRcpt, appLast, prop>>
 volatile == <<mode, pc, i, sg, mStore, mState, csH, csR, csBlk, exRoot>>
 hist     == <<crashes, readable, ver>>
 vars     == <<durable, volatile, hist>>
@@ -102,6 +105,7 @@ Init ==
            C |-> {}, SC |-> [h \in Heights |-> NoBlk]]
   /\ desc = 0 /\ plug = {} /\ inter = NoState /\ stkey = NoState /\ trie = {} /\ rcpt = {}
   /\ kvh = [h \in Heights |-> 0] /\ lastRcpt = NoRcpt /\ appLast = NoApp
+  /\ prop = [key |-> -1, inter |-> -1]
   /\ mode = "rec" /\ pc = "r_load" /\ i = 0 /\ sg = NoSg /\ mStore = 0 /\ mState = NoState
   /\ csH = 0 /\ csR = 0 /\ csBlk = NoBlk /\ exRoot = <<>>
   /\ crashes = 0 /\ readable = [h \in Heights |-> NoBlk] /\ ver = 0
@@ -132,7 +136,7 @@ WalLine(l) == wal' = [wal EXCEPT !.lines = @ \cup {l}]
 W_Timeout ==
   /\ Running("W_Timeout") /\ stkey.h < MaxH
   /\ WalLine("Timeout") /\ ProposeNext
-  /\ UNCHANGED <<signer, bs, desc, plug, inter, stkey, trie, rcpt, kvh, lastRcpt, appLast,
+  /\ UNCHANGED <<prop, signer, bs, desc, plug, inter, stkey, trie, rcpt, kvh, lastRcpt, appLast,
                  mode, i, mStore, mState, csH, csR, exRoot, crashes, readable>>
 
 S_bak ==
@@ -145,40 +149,40 @@ S_rename ==
   /\ Running("S_rename")
   /\ signer' = [h |-> csH, r |-> csR, s |-> sg.s, blk |-> csBlk]
   /\ pc' = sg.next /\ sg' = NoSg
-  /\ UNCHANGED <<wal, bs, desc, plug, inter, stkey, trie, rcpt, kvh, lastRcpt, appLast,
+  /\ UNCHANGED <<prop, wal, bs, desc, plug, inter, stkey, trie, rcpt, kvh, lastRcpt, appLast,
                  mode, i, mStore, mState, csH, csR, csBlk, exRoot, hist>>
 
 W_StepPropose ==
   /\ Running("W_StepPropose") /\ WalLine("StepPropose") /\ pc' = "W_Proposal"
-  /\ UNCHANGED <<signer, bs, desc, plug, inter, stkey, trie, rcpt, kvh, lastRcpt, appLast,
+  /\ UNCHANGED <<prop, signer, bs, desc, plug, inter, stkey, trie, rcpt, kvh, lastRcpt, appLast,
                  mode, i, sg, mStore, mState, csH, csR, csBlk, exRoot, hist>>
 W_Proposal ==
   /\ Running("W_Proposal")
   /\ wal' = [wal EXCEPT !.lines = @ \cup {"Proposal"}, !.blk = csBlk, !.parts = 0]
   /\ pc' = "W_Part"
-  /\ UNCHANGED <<signer, bs, desc, plug, inter, stkey, trie, rcpt, kvh, lastRcpt, appLast,
+  /\ UNCHANGED <<prop, signer, bs, desc, plug, inter, stkey, trie, rcpt, kvh, lastRcpt, appLast,
                  mode, i, sg, mStore, mState, csH, csR, csBlk, exRoot, hist>>
 W_Part ==
   /\ Running("W_Part")
   /\ wal' = [wal EXCEPT !.parts = @ + 1]
   /\ IF wal.parts + 1 = csBlk.np THEN VoteNext(2, "W_StepPrevote", csBlk) ELSE pc' = pc /\ sg' = sg
-  /\ UNCHANGED <<signer, bs, desc, plug, inter, stkey, trie, rcpt, kvh, lastRcpt, appLast,
+  /\ UNCHANGED <<prop, signer, bs, desc, plug, inter, stkey, trie, rcpt, kvh, lastRcpt, appLast,
                  mode, i, mStore, mState, csH, csR, csBlk, exRoot, hist>>
 W_StepPrevote ==
   /\ Running("W_StepPrevote") /\ WalLine("StepPrevote") /\ pc' = "W_Prevote"
-  /\ UNCHANGED <<signer, bs, desc, plug, inter, stkey, trie, rcpt, kvh, lastRcpt, appLast,
+  /\ UNCHANGED <<prop, signer, bs, desc, plug, inter, stkey, trie, rcpt, kvh, lastRcpt, appLast,
                  mode, i, sg, mStore, mState, csH, csR, csBlk, exRoot, hist>>
 W_Prevote ==
   /\ Running("W_Prevote") /\ WalLine("Prevote") /\ VoteNext(3, "W_StepPrecommit", csBlk)
-  /\ UNCHANGED <<signer, bs, desc, plug, inter, stkey, trie, rcpt, kvh, lastRcpt, appLast,
+  /\ UNCHANGED <<prop, signer, bs, desc, plug, inter, stkey, trie, rcpt, kvh, lastRcpt, appLast,
                  mode, i, mStore, mState, csH, csR, csBlk, exRoot, hist>>
 W_StepPrecommit ==
   /\ Running("W_StepPrecommit") /\ WalLine("StepPrecommit") /\ pc' = "W_Precommit"
-  /\ UNCHANGED <<signer, bs, desc, plug, inter, stkey, trie, rcpt, kvh, lastRcpt, appLast,
+  /\ UNCHANGED <<prop, signer, bs, desc, plug, inter, stkey, trie, rcpt, kvh, lastRcpt, appLast,
                  mode, i, sg, mStore, mState, csH, csR, csBlk, exRoot, hist>>
 W_Precommit ==
   /\ Running("W_Precommit") /\ WalLine("Precommit") /\ pc' = "W_StepCommit"
-  /\ UNCHANGED <<signer, bs, desc, plug, inter, stkey, trie, rcpt, kvh, lastRcpt, appLast,
+  /\ UNCHANGED <<prop, signer, bs, desc, plug, inter, stkey, trie, rcpt, kvh, lastRcpt, appLast,
                  mode, i, sg, mStore, mState, csH, csR, csBlk, exRoot, hist>>
 
 \* finalizeCommit entry: cs.state.ValidateBlock(block) must hold (else PanicConsensus); SaveBlock is skipped
@@ -191,7 +195,7 @@ EnterCommit ==
 W_StepCommit ==
   /\ Running("W_StepCommit") /\ WalLine("StepCommit") /\ EnterCommit
   /\ exRoot' = Append(appLast.root, csH)        \* OnExecute starts from getLastAppHash()
-  /\ UNCHANGED <<signer, bs, desc, plug, inter, stkey, trie, rcpt, kvh, lastRcpt, appLast,
+  /\ UNCHANGED <<prop, signer, bs, desc, plug, inter, stkey, trie, rcpt, kvh, lastRcpt, appLast,
                  i, sg, mStore, mState, csH, csR, csBlk, hist>>
 
 \* A round in which this (only) validator cannot propose: prevote nil, precommit nil, next round.
@@ -204,7 +208,7 @@ NilRound ==
   /\ \E np \in 1..MaxParts :
        csBlk' = [v |-> ver + 1, h |-> csH, root |-> mState.root, rh |-> mState.rh, np |-> np]
   /\ ver' = ver + 1
-  /\ UNCHANGED <<bs, desc, plug, inter, stkey, trie, rcpt, kvh, lastRcpt, appLast,
+  /\ UNCHANGED <<prop, bs, desc, plug, inter, stkey, trie, rcpt, kvh, lastRcpt, appLast,
                  mode, i, mStore, mState, csH, exRoot, crashes, readable>>
 
 ----------------------------------------------------------------------------
@@ -215,27 +219,27 @@ BsMeta ==
   /\ bs' = [bs EXCEPT !.H[csH] = csBlk,
                       !.P[csH] = IF @.blk = csBlk THEN @ ELSE [blk |-> csBlk, n |-> 0]]
   /\ pc' = "BsPart" /\ i' = 0
-  /\ UNCHANGED <<wal, signer, desc, plug, inter, stkey, trie, rcpt, kvh, lastRcpt, appLast,
+  /\ UNCHANGED <<prop, wal, signer, desc, plug, inter, stkey, trie, rcpt, kvh, lastRcpt, appLast,
                  mode, sg, mStore, mState, csH, csR, csBlk, exRoot, hist>>
 BsPart ==
   /\ Running("BsPart")
   /\ bs' = [bs EXCEPT !.P[csH].n = IF @ > i + 1 THEN @ ELSE i + 1]
   /\ i' = i + 1
   /\ pc' = IF i + 1 = csBlk.np THEN "BsCommit" ELSE pc
-  /\ UNCHANGED <<wal, signer, desc, plug, inter, stkey, trie, rcpt, kvh, lastRcpt, appLast,
+  /\ UNCHANGED <<prop, wal, signer, desc, plug, inter, stkey, trie, rcpt, kvh, lastRcpt, appLast,
                  mode, sg, mStore, mState, csH, csR, csBlk, exRoot, hist>>
 BsCommit ==
   /\ Running("BsCommit") /\ bs' = [bs EXCEPT !.C = @ \cup {csH - 1}] /\ pc' = "BsSeen"
-  /\ UNCHANGED <<wal, signer, desc, plug, inter, stkey, trie, rcpt, kvh, lastRcpt, appLast,
+  /\ UNCHANGED <<prop, wal, signer, desc, plug, inter, stkey, trie, rcpt, kvh, lastRcpt, appLast,
                  mode, i, sg, mStore, mState, csH, csR, csBlk, exRoot, hist>>
 BsSeen ==
   /\ Running("BsSeen") /\ bs' = [bs EXCEPT !.SC[csH] = csBlk] /\ pc' = "BsDesc"
-  /\ UNCHANGED <<wal, signer, desc, plug, inter, stkey, trie, rcpt, kvh, lastRcpt, appLast,
+  /\ UNCHANGED <<prop, wal, signer, desc, plug, inter, stkey, trie, rcpt, kvh, lastRcpt, appLast,
                  mode, i, sg, mStore, mState, csH, csR, csBlk, exRoot, hist>>
 BsDesc ==
   /\ Running("BsDesc") /\ desc' = csH /\ mStore' = csH /\ pc' = "BsFlush"
   /\ readable' = [readable EXCEPT ![csH] = IF @ = NoBlk THEN csBlk ELSE @]
-  /\ UNCHANGED <<wal, signer, bs, plug, inter, stkey, trie, rcpt, kvh, lastRcpt, appLast,
+  /\ UNCHANGED <<prop, wal, signer, bs, plug, inter, stkey, trie, rcpt, kvh, lastRcpt, appLast,
                  mode, i, sg, mState, csH, csR, csBlk, exRoot, crashes, ver>>
 BsFlush ==
   /\ Running("BsFlush") /\ pc' = "Plugin"
@@ -243,8 +247,18 @@ BsFlush ==
 
 (* State.ApplyBlock: ExecBlock (plugins, OnExecute in memory, SaveIntermediate), then the application's commit *)
 Plugin ==
-  /\ Running("Plugin") /\ plug' = plug \cup {csH} /\ pc' = "StInter"
-  /\ UNCHANGED <<wal, signer, bs, desc, inter, stkey, trie, rcpt, kvh, lastRcpt, appLast,
+  /\ Running("Plugin") /\ plug' = plug \cup {csH} /\ pc' = "StInterProp"
+  /\ UNCHANGED <<prop, wal, signer, bs, desc, inter, stkey, trie, rcpt, kvh, lastRcpt, appLast,
+                 mode, i, sg, mStore, mState, csH, csR, csBlk, exRoot, hist>>
+\* State.saveProposer (fix 8534ce2): the proposer cached in the validator set, tagged with the height, is
+\* written immediately before the state record it belongs to; loadState ignores a record with another height
+StInterProp ==
+  /\ Running("StInterProp") /\ prop' = [prop EXCEPT !.inter = csH] /\ pc' = "StInter"
+  /\ UNCHANGED <<wal, signer, bs, desc, plug, inter, stkey, trie, rcpt, kvh, lastRcpt, appLast,
+                 mode, i, sg, mStore, mState, csH, csR, csBlk, exRoot, hist>>
+StSaveProp ==
+  /\ Running("StSaveProp") /\ prop' = [prop EXCEPT !.key = csH] /\ pc' = "StSave"
+  /\ UNCHANGED <<wal, signer, bs, desc, plug, inter, stkey, trie, rcpt, kvh, lastRcpt, appLast,
                  mode, i, sg, mStore, mState, csH, csR, csBlk, exRoot, hist>>
 StInter ==
   /\ Running("StInter")
@@ -252,34 +266,34 @@ StInter ==
                vals |-> IF csH \in ValHeights THEN csH ELSE mState.vals, \* validators after EndBlock
                lvals |-> mState.vals]
   /\ pc' = "Trie" /\ i' = 0
-  /\ UNCHANGED <<wal, signer, bs, desc, plug, stkey, trie, rcpt, kvh, lastRcpt, appLast,
+  /\ UNCHANGED <<prop, wal, signer, bs, desc, plug, stkey, trie, rcpt, kvh, lastRcpt, appLast,
                  mode, sg, mStore, mState, csH, csR, csBlk, exRoot, hist>>
 AfterTrie == IF Legacy THEN "AppLast" ELSE "Rcpt"
 Trie ==
   /\ Running("Trie") /\ i < MaxTrie
   /\ \/ /\ i' = i + 1 /\ i + 1 < MaxTrie /\ pc' = pc /\ trie' = trie        \* one more batch follows
      \/ /\ i' = 0 /\ pc' = AfterTrie /\ trie' = trie \cup {exRoot}           \* last batch: root complete
-  /\ UNCHANGED <<wal, signer, bs, desc, plug, inter, stkey, rcpt, kvh, lastRcpt, appLast,
+  /\ UNCHANGED <<prop, wal, signer, bs, desc, plug, inter, stkey, rcpt, kvh, lastRcpt, appLast,
                  mode, sg, mStore, mState, csH, csR, csBlk, exRoot, hist>>
-AfterRcpt == IF csH \in KvHeights THEN "KvHist" ELSE IF Legacy THEN "StSave" ELSE "LastRcpt"
+AfterRcpt == IF csH \in KvHeights THEN "KvHist" ELSE IF Legacy THEN "StSaveProp" ELSE "LastRcpt"
 Rcpt ==
   /\ Running("Rcpt") /\ rcpt' = rcpt \cup {csH} /\ pc' = AfterRcpt
-  /\ UNCHANGED <<wal, signer, bs, desc, plug, inter, stkey, trie, kvh, lastRcpt, appLast,
+  /\ UNCHANGED <<prop, wal, signer, bs, desc, plug, inter, stkey, trie, kvh, lastRcpt, appLast,
                  mode, i, sg, mStore, mState, csH, csR, csBlk, exRoot, hist>>
 KvHist ==
   /\ Running("KvHist")
   /\ kvh' = [kvh EXCEPT ![csH] = IF KvIdem THEN 1 ELSE @ + 1]
-  /\ pc' = IF Legacy THEN "StSave" ELSE "LastRcpt"
-  /\ UNCHANGED <<wal, signer, bs, desc, plug, inter, stkey, trie, rcpt, lastRcpt, appLast,
+  /\ pc' = IF Legacy THEN "StSaveProp" ELSE "LastRcpt"
+  /\ UNCHANGED <<prop, wal, signer, bs, desc, plug, inter, stkey, trie, rcpt, lastRcpt, appLast,
                  mode, i, sg, mStore, mState, csH, csR, csBlk, exRoot, hist>>
 LastRcpt ==
   /\ Running("LastRcpt") /\ lastRcpt' = [h |-> csH, rh |-> csH] /\ pc' = "AppLast"
-  /\ UNCHANGED <<wal, signer, bs, desc, plug, inter, stkey, trie, rcpt, kvh, appLast,
+  /\ UNCHANGED <<prop, wal, signer, bs, desc, plug, inter, stkey, trie, rcpt, kvh, appLast,
                  mode, i, sg, mStore, mState, csH, csR, csBlk, exRoot, hist>>
 AppLast ==
   /\ Running("AppLast") /\ appLast' = [h |-> csH, root |-> exRoot]
-  /\ pc' = IF Legacy THEN "Rcpt" ELSE "StSave"
-  /\ UNCHANGED <<wal, signer, bs, desc, plug, inter, stkey, trie, rcpt, kvh, lastRcpt,
+  /\ pc' = IF Legacy THEN "Rcpt" ELSE "StSaveProp"
+  /\ UNCHANGED <<prop, wal, signer, bs, desc, plug, inter, stkey, trie, rcpt, kvh, lastRcpt,
                  mode, i, sg, mStore, mState, csH, csR, csBlk, exRoot, hist>>
 \* finalizeCommit: stateCopy.Save(); updateToState(stateCopy) -> height+1, round 0
 StSave ==
@@ -287,15 +301,15 @@ StSave ==
   /\ stkey' = [h |-> csH, root |-> exRoot, rh |-> csH,
                vals |-> IF csH \in ValHeights THEN csH ELSE mState.vals, lvals |-> mState.vals]
   /\ mState' = stkey' /\ csH' = csH + 1 /\ csR' = 0 /\ csBlk' = NoBlk /\ pc' = "W_Mark"
-  /\ UNCHANGED <<wal, signer, bs, desc, plug, inter, trie, rcpt, kvh, lastRcpt, appLast,
+  /\ UNCHANGED <<prop, wal, signer, bs, desc, plug, inter, trie, rcpt, kvh, lastRcpt, appLast,
                  mode, i, sg, mStore, exRoot, hist>>
 W_Mark ==
   /\ Running("W_Mark") /\ wal' = WalAt(csH) /\ pc' = "W_NewHeight"
-  /\ UNCHANGED <<signer, bs, desc, plug, inter, stkey, trie, rcpt, kvh, lastRcpt, appLast,
+  /\ UNCHANGED <<prop, signer, bs, desc, plug, inter, stkey, trie, rcpt, kvh, lastRcpt, appLast,
                  mode, i, sg, mStore, mState, csH, csR, csBlk, exRoot, hist>>
 W_NewHeight ==
   /\ Running("W_NewHeight") /\ WalLine("NewHeight") /\ pc' = "W_Timeout"
-  /\ UNCHANGED <<signer, bs, desc, plug, inter, stkey, trie, rcpt, kvh, lastRcpt, appLast,
+  /\ UNCHANGED <<prop, signer, bs, desc, plug, inter, stkey, trie, rcpt, kvh, lastRcpt, appLast,
                  mode, i, sg, mStore, mState, csH, csR, csBlk, exRoot, hist>>
 
 \* the pause between two heights (timeout_commit): nothing in flight
@@ -322,12 +336,19 @@ Panic(why) == mode' = "panic" /\ pc' = why
 \* getOrMakeState: LoadState(stateKey) or genesis state (saved at once); NewBlockStore reads the descriptor
 R_Load ==
   /\ Rec("r_load")
-  /\ IF stkey = NoState THEN stkey' = Genesis /\ mState' = Genesis      \* gldb.SetSync stateKey
-                         ELSE stkey' = stkey /\ mState' = stkey
+  /\ mState' = IF stkey = NoState THEN Genesis ELSE stkey
   /\ mStore' = desc
+  /\ pc' = IF stkey = NoState THEN "r_genProp" ELSE IF Legacy THEN "r_hack" ELSE "r_complete"
+  /\ UNCHANGED <<durable, mode, i, sg, csH, csR, csBlk, exRoot, hist>>
+R_GenProp ==
+  /\ Rec("r_genProp") /\ prop' = [prop EXCEPT !.key = 0] /\ pc' = "r_genSave"   \* gldb.SetSync stateKey.proposer
+  /\ UNCHANGED <<wal, signer, bs, desc, plug, inter, stkey, trie, rcpt, kvh, lastRcpt, appLast,
+                 mode, i, sg, mStore, mState, csH, csR, csBlk, exRoot, hist>>
+R_GenSave ==
+  /\ Rec("r_genSave") /\ stkey' = Genesis                                       \* gldb.SetSync stateKey
   /\ pc' = IF Legacy THEN "r_hack" ELSE "r_complete"
-  /\ UNCHANGED <<wal, signer, bs, desc, plug, inter, trie, rcpt, kvh, lastRcpt, appLast,
-                 mode, i, sg, csH, csR, csBlk, exRoot, hist>>
+  /\ UNCHANGED <<prop, wal, signer, bs, desc, plug, inter, trie, rcpt, kvh, lastRcpt, appLast,
+                 mode, i, sg, mStore, mState, csH, csR, csBlk, exRoot, hist>>
 
 \* State.LoadIntermediate: sanity checks against the state it extends
 InterFits(st) == inter # NoState /\ inter.h = st.h + 1 /\ inter.root = st.root /\ inter.rh = st.rh
@@ -342,13 +363,17 @@ R_Complete ==
                              rh |-> IF lastRcpt.h = appLast.h THEN lastRcpt.rh ELSE 0,
                              vals |-> IF SwapVals THEN inter.lvals ELSE inter.vals,
                              lvals |-> IF SwapVals THEN inter.vals ELSE inter.lvals]
-               /\ pc' = "r_completeSave" /\ mode' = mode
+               /\ pc' = "r_completeProp" /\ mode' = mode
           ELSE Panic("panic:LoadIntermediate") /\ mState' = mState
      ELSE pc' = "r_hack" /\ mode' = mode /\ mState' = mState
   /\ UNCHANGED <<durable, i, sg, mStore, csH, csR, csBlk, exRoot, hist>>
+R_CompleteProp ==
+  /\ Rec("r_completeProp") /\ prop' = [prop EXCEPT !.key = mState.h] /\ pc' = "r_completeSave"
+  /\ UNCHANGED <<wal, signer, bs, desc, plug, inter, stkey, trie, rcpt, kvh, lastRcpt, appLast,
+                 mode, i, sg, mStore, mState, csH, csR, csBlk, exRoot, hist>>
 R_CompleteSave ==
   /\ Rec("r_completeSave") /\ stkey' = mState /\ pc' = "r_hack"              \* gldb.SetSync stateKey
-  /\ UNCHANGED <<wal, signer, bs, desc, plug, inter, trie, rcpt, kvh, lastRcpt, appLast,
+  /\ UNCHANGED <<prop, wal, signer, bs, desc, plug, inter, trie, rcpt, kvh, lastRcpt, appLast,
                  mode, i, sg, mStore, mState, csH, csR, csBlk, exRoot, hist>>
 
 \* NewBlockchainReactor: "store.height -= 1 // XXX HACK", then PanicSanity on mismatch
@@ -367,7 +392,7 @@ R_Cons ==
      THEN Panic("panic:reconstructLastCommit") /\ wal' = wal
      ELSE /\ pc' = "r_recover" /\ mode' = mode
           /\ wal' = IF wal.mark = 0 THEN WalAt(1) ELSE wal                    \* autofile.Write
-  /\ UNCHANGED <<signer, bs, desc, plug, inter, stkey, trie, rcpt, kvh, lastRcpt, appLast,
+  /\ UNCHANGED <<prop, signer, bs, desc, plug, inter, stkey, trie, rcpt, kvh, lastRcpt, appLast,
                  i, sg, mStore, mState, csBlk, exRoot, hist>>
 
 \* Angine.RecoverFromCrash(info.LastBlockAppHash, info.LastBlockHeight), guards exactly as in the code.
@@ -402,11 +427,11 @@ R_AppStart ==
   /\ UNCHANGED <<durable, mode, i, sg, mStore, mState, csH, csR, csBlk, exRoot, hist>>
 R_GenTrie ==
   /\ Rec("r_genTrie") /\ trie' = trie \cup {<<>>} /\ pc' = "r_genLast"          \* ethdb.BatchWrite
-  /\ UNCHANGED <<wal, signer, bs, desc, plug, inter, stkey, rcpt, kvh, lastRcpt, appLast,
+  /\ UNCHANGED <<prop, wal, signer, bs, desc, plug, inter, stkey, rcpt, kvh, lastRcpt, appLast,
                  mode, i, sg, mStore, mState, csH, csR, csBlk, exRoot, hist>>
 R_GenLast ==
   /\ Rec("r_genLast") /\ appLast' = [h |-> 0, root |-> <<>>] /\ pc' = "r_walCheck"   \* gldb.SetSync lastblock
-  /\ UNCHANGED <<wal, signer, bs, desc, plug, inter, stkey, trie, rcpt, kvh, lastRcpt,
+  /\ UNCHANGED <<prop, wal, signer, bs, desc, plug, inter, stkey, trie, rcpt, kvh, lastRcpt,
                  mode, i, sg, mStore, mState, csH, csR, csBlk, exRoot, hist>>
 
 \* ConsensusState.OnStart: "#HEIGHT: cs.Height" not in the WAL -> write it and the NewHeight step line
@@ -414,11 +439,11 @@ R_WalCheck ==
   /\ Rec("r_walCheck")
   /\ IF wal.mark < csH THEN wal' = WalAt(csH) /\ pc' = "r_walStep"              \* autofile.Write
                        ELSE wal' = wal /\ pc' = "r_replay"
-  /\ UNCHANGED <<signer, bs, desc, plug, inter, stkey, trie, rcpt, kvh, lastRcpt, appLast,
+  /\ UNCHANGED <<prop, signer, bs, desc, plug, inter, stkey, trie, rcpt, kvh, lastRcpt, appLast,
                  mode, i, sg, mStore, mState, csH, csR, csBlk, exRoot, hist>>
 R_WalStep ==
   /\ Rec("r_walStep") /\ WalLine("NewHeight") /\ pc' = "r_replay"               \* autofile.Write
-  /\ UNCHANGED <<signer, bs, desc, plug, inter, stkey, trie, rcpt, kvh, lastRcpt, appLast,
+  /\ UNCHANGED <<prop, signer, bs, desc, plug, inter, stkey, trie, rcpt, kvh, lastRcpt, appLast,
                  mode, i, sg, mStore, mState, csH, csR, csBlk, exRoot, hist>>
 
 \* catchupReplay(cs.Height): "#HEIGHT: cs.Height+1" present -> error, logged, nothing replayed ("let's go for
@@ -469,13 +494,13 @@ ReplayPanic ==
   /\ mode = "run" /\ pc = "panic:finalizeCommit-invalid-block" /\ mode' = "panic"
   /\ UNCHANGED <<durable, pc, i, sg, mStore, mState, csH, csR, csBlk, exRoot, hist>>
 
-Recover == R_Load \/ R_Complete \/ R_CompleteSave \/ R_Hack \/ R_Cons \/ R_Recover \/ R_AppStart
+Recover == R_Load \/ R_GenProp \/ R_GenSave \/ R_Complete \/ R_CompleteProp \/ R_CompleteSave \/ R_Hack \/ R_Cons \/ R_Recover \/ R_AppStart
            \/ R_GenTrie \/ R_GenLast \/ R_WalCheck \/ R_WalStep \/ R_Replay \/ ReplayPanic
 
 Round  == W_Timeout \/ S_bak \/ S_new \/ S_rename \/ W_StepPropose \/ W_Proposal \/ W_Part \/ W_StepPrevote
           \/ W_Prevote \/ W_StepPrecommit \/ W_Precommit \/ W_StepCommit \/ NilRound
-Commit == BsMeta \/ BsPart \/ BsCommit \/ BsSeen \/ BsDesc \/ BsFlush \/ Plugin \/ StInter \/ Trie \/ Rcpt
-          \/ KvHist \/ LastRcpt \/ AppLast \/ StSave \/ W_Mark \/ W_NewHeight
+Commit == BsMeta \/ BsPart \/ BsCommit \/ BsSeen \/ BsDesc \/ BsFlush \/ Plugin \/ StInterProp \/ StInter \/ Trie
+          \/ Rcpt \/ KvHist \/ LastRcpt \/ AppLast \/ StSaveProp \/ StSave \/ W_Mark \/ W_NewHeight
 Step   == Round \/ Commit \/ Recover \/ Finish
 Next   == Step \/ Crash
 Spec   == Init /\ [][Next]_vars /\ WF_vars(Step)
@@ -496,6 +521,7 @@ RecoveredConsistent ==
     /\ stkey.root = appLast.root /\ stkey.root = UpTo(stkey.h) /\ stkey.rh = stkey.h
     /\ stkey.vals = ValsAfter(stkey.h) /\ (stkey.h > 0 => stkey.lvals = ValsAfter(stkey.h - 1))
     /\ appLast.root \in trie
+    /\ prop.key = stkey.h                 \* the stored proposer record belongs to the stored state
     /\ rcpt = 1..stkey.h
     /\ \A h \in 1..stkey.h : kvh[h] = IF h \in KvHeights THEN 1 ELSE 0
 
